@@ -102,18 +102,20 @@ fn name(u: &mut Unstructured, utoff: i32, fallback: &str) -> Result<String> {
     })
 }
 
-fn rule_day(u: &mut Unstructured, spring: bool) -> Result<(RuleDay, String)> {
+/// a rule day inside month `m` (2..=11: always more than a week away from 1 January)
+fn rule_day(u: &mut Unstructured, m: u32) -> Result<(RuleDay, String)> {
+    const START: [u32; 13] = [0, 0, 31, 59, 90, 120, 151, 181, 212, 243, 273, 304, 334]; // zero-based day of the 1st, common year
+    const LEN: [u32; 13] = [0, 31, 28, 31, 30, 31, 30, 31, 31, 30, 31, 30, 31];
     Ok(match u.below(5)? {
         0 => {
-            let n = if spring { u.int_in_range(60..=151u32)? } else { u.int_in_range(244..=334u32)? };
+            let n = START[m as usize] + 1 + u.int_in_range(0..=LEN[m as usize] - 1)?;
             (RuleDay::Julian(n), format!("J{}", n))
         }
         1 => {
-            let n = if spring { u.int_in_range(59..=150u32)? } else { u.int_in_range(243..=333u32)? };
+            let n = START[m as usize] + u.int_in_range(0..=LEN[m as usize] - 1)?;
             (RuleDay::ZeroBased(n), format!("{}", n))
         }
         _ => {
-            let m = if spring { u.int_in_range(3..=5u32)? } else { u.int_in_range(9..=11u32)? };
             let w = u.int_in_range(1..=5u32)?;
             let d = u.int_in_range(0..=6u32)?;
             (RuleDay::Mwd(m, w, d), format!("M{}.{}.{}", m, w, d))
@@ -130,10 +132,10 @@ fn rule_time(u: &mut Unstructured, v3: bool) -> Result<String> {
         _ => {
             if v3 {
                 let h = u.int_in_range(-72..=72i32)?;
-                if u.coin(1, 2)? {
-                    format!("/{}", h)
-                } else {
-                    format!("/{}:{:02}", h, u.int_in_range(0..=59i32)?)
+                match u.below(3)? {
+                    0 => format!("/{}", h),
+                    1 => format!("/{}:{:02}", h, u.int_in_range(0..=59i32)?),
+                    _ => format!("/{}:{:02}:{:02}", h, u.int_in_range(0..=59i32)?, u.int_in_range(0..=59i32)?),
                 }
             } else {
                 format!("/{}", u.int_in_range(1..=3i32)?)
@@ -161,9 +163,16 @@ pub fn gen_footer(u: &mut Unstructured, v3: bool) -> Result<String> {
     if delta != 3600 || u.coin(1, 4)? {
         s.push_str(&fmt_off(u, -dst_utoff, false)?);
     }
-    let northern = u.coin(1, 2)?;
-    let (_, a) = rule_day(u, northern)?;
-    let (_, b) = rule_day(u, !northern)?;
+    // two different months in February..November at least two months apart (either order:
+    // northern or southern hemisphere), so the switch-overs are more than a week apart and more
+    // than a week from 1 January even with the +-72 h version-3 times
+    let m1 = u.int_in_range(2..=11u32)?;
+    let mut m2 = u.int_in_range(2..=11u32)?;
+    if (m1 as i32 - m2 as i32).abs() < 2 {
+        m2 = if m1 <= 6 { m1 + 2 + u.int_in_range(0..=2u32)? } else { m1 - 2 - u.int_in_range(0..=2u32)? };
+    }
+    let (_, a) = rule_day(u, m1)?;
+    let (_, b) = rule_day(u, m2.clamp(2, 11))?;
     s.push_str(&format!(",{}{},{}{}", a, rule_time(u, v3)?, b, rule_time(u, v3)?));
     Ok(s)
 }
